@@ -102,7 +102,16 @@ fn check_number(dest: &Dest, elems: &[PoeticElem], spelling: &[u32]) -> Result<(
     let src = render(&prog, spelling, LAYOUT).text;
     let tree = match parse_rrss(&src, Some(crate::run::parse_fuel_for(&src))) {
         Caught::Done(Ok(t)) => t,
-        Caught::Done(Err(e)) => return Err(Outcome::discard(format!("render_mismatch:rejected:{}", e.code))),
+        // every generated element list is a poetic literal by the statement's rules (words, keywords used as words,
+        // suffixes, hyphenated parts, periods, commas): a rejection means it denotes nothing at all
+        Caught::Done(Err(e)) => {
+            return Err(Outcome::fail(format!(
+                "poetic literal value: the literal is rejected ({}) although its words spell {}\n{}",
+                e.text,
+                poetic_numeral(elems),
+                src
+            )))
+        }
         Caught::Panic(p) => return Err(Outcome::fail(format!("parse panicked: {}\n{}", p, src))),
         Caught::Budget(_) => return Err(Outcome::fail(format!("parse ran out of fuel\n{}", src))),
     };
